@@ -1,6 +1,6 @@
 import Cutadapt.Proofs.AlignSound
 import Cutadapt.Proofs.LocateSpec
-/-! Soundness of `Align.locate`, part 1: scripts, per-cell score invariant, initial column, one column step. -/
+/-! Soundness of `Align.locate`, part 1: scripts, per-cell score invariant, the initial column. -/
 namespace Cutadapt.Align.Sound
 open Cutadapt Cutadapt.Align Cutadapt.Spec Cutadapt.Generated
 
